@@ -146,6 +146,12 @@ func refGUIDPacket(a uint32, b, c, d uint16, e uint64) []byte {
 
 // refBuild serialises entries in the given order and fills in KeyID/KeyHash.
 func refBuild(version uint32, material []byte, usage, source byte, device []byte, cki []byte, lastLogon, creation uint64) []byte {
+	return refBuildOpt(false, version, material, usage, source, device, cki, lastLogon, creation)
+}
+
+// refBuildOpt: omitKeyID leaves the KeyID entry out (the library writes such a blob for a
+// credential whose Identifier is empty, and reads it back).
+func refBuildOpt(omitKeyID bool, version uint32, material []byte, usage, source byte, device []byte, cki []byte, lastLogon, creation uint64) []byte {
 	entry := func(id byte, v []byte) []byte {
 		return append(append(put16(len(v)), id), v...)
 	}
@@ -162,7 +168,9 @@ func refBuild(version uint32, material []byte, usage, source byte, device []byte
 	kid := sha256.Sum256(material)
 	kh := sha256.Sum256(tail)
 	out := put32(version)
-	out = append(out, entry(1, kid[:])...)
+	if !omitKeyID {
+		out = append(out, entry(1, kid[:])...)
+	}
 	out = append(out, entry(2, kh[:])...)
 	return append(out, tail...)
 }
